@@ -244,7 +244,21 @@ def case_chain(rng: Any, ctx: Ctx, index: int) -> None:
     """A chain with a block pair that cannot be paired block by block followed by a pair of the same classes that can."""
     from .. import patterns
     from .c07 import residue
-    if rng.integers(3) == 0:
+    if rng.integers(4) == 0:
+        # row times column whose block products are scalars / identities: the sum of several scalar terms
+        from furax._base.core import HomothetyOperator, IdentityOperator
+        s0 = gen.S((int(rng.integers(1, 4)),), gen.case_dtype(rng))
+        nb = int(rng.integers(2, 4))
+        def sc() -> Any:
+            return IdentityOperator(s0) if rng.integers(4) == 0 else HomothetyOperator(float(gen.pick(rng, [2.0, 3.0, -1.5, 0.5])), s0)
+        col = [sc() for _ in range(nb)]
+        row = [sc() for _ in range(nb)]
+        keys = ['b', 'a', 'c'][:nb]
+        if rng.integers(2):
+            tag, ops = 'blocks/row@col-scalar-blocks', [BlockRowOperator(dict(zip(keys, row))), BlockColumnOperator(dict(zip(keys, col)))]
+        else:
+            tag, ops = 'blocks/row@col-scalar-blocks', [BlockRowOperator(row), BlockColumnOperator(col)]
+    elif rng.integers(3) == 0:
         # two block-diagonal operators whose blocks cancel pairwise: the whole chain vanishes, what is left is the identity
         # ON THE STRUCTURE OF THE CHAIN
         tag, ops = generate(lambda: patterns.p_blocks_cancel(rng))
